@@ -168,7 +168,7 @@ func runC20(r *mon.Run) {
 			var werr error
 			select {
 			case werr = <-done:
-			case <-time.After(20 * time.Minute):
+			case <-time.After(45 * time.Minute):
 				cmd.Process.Kill()
 				werr = fmt.Errorf("watchdog")
 			}
@@ -703,8 +703,12 @@ func c20W4(sum *c20Summary, rng *rand.Rand, g, rounds int, viol func(string, str
 			sum.Proofs += 3
 		}
 		// the group description used by key proofs, asked for by many goroutines for several primes at once: every answer is the
-		// group of the prime that was asked for (as computed alone beforehand)
-		{
+		// group of the prime that was asked for (as computed alone beforehand). First round only; fewer requests on few Ps.
+		if round == 0 {
+			hammerIts := 1200
+			if runtime.GOMAXPROCS(0) < 8 {
+				hammerIts = 300
+			}
 			type gref struct{ p, order, gg, hh *big.Int }
 			var refs []gref
 			for _, bits := range []int{72, 80, 96} {
@@ -726,7 +730,7 @@ func c20W4(sum *c20Summary, rng *rand.Rand, g, rounds int, viol func(string, str
 					go func(w int) {
 						defer wg3.Done()
 						<-start
-						for it := 0; it < 1200; it++ {
+						for it := 0; it < hammerIts; it++ {
 							// mostly one prime per goroutine (neighbours ask for different ones), now and then another
 							ref := refs[w%len(refs)]
 							if it%16 == 15 {
